@@ -16,6 +16,7 @@ import (
 	"cuelabs.dev/go/oci/ociregistry"
 	"cuelabs.dev/go/oci/ociregistry/ociclient"
 	"cuelabs.dev/go/oci/ociregistry/ociserver"
+	"github.com/opencontainers/go-digest"
 )
 
 // ---- scripted backend -------------------------------------------------------------------
@@ -24,6 +25,7 @@ import (
 type script struct {
 	point string // Funcs method name, or "Write" / "Close" / "Commit" on the BlobWriter
 	err   error
+	big   bool // tags resolve to a manifest above the client's in-memory threshold
 }
 
 type backend struct {
@@ -41,6 +43,12 @@ func (b *backend) point() string {
 	b.mu.Lock()
 	defer b.mu.Unlock()
 	return b.cur.point
+}
+
+func (b *backend) big() bool {
+	b.mu.Lock()
+	defer b.mu.Unlock()
+	return b.cur.big
 }
 
 func (b *backend) at(point string) error {
@@ -90,7 +98,30 @@ var (
 	blobData   = []byte("hello")
 	blobDigest = ociregistry.Digest("sha256:2cf24dba5fb0a30e26e83b2ac5b9e29e1b161e5c1fa7425e73043362938b9824")
 	blobDesc   = ociregistry.Descriptor{MediaType: "application/octet-stream", Digest: blobDigest, Size: 5}
+
+	// a manifest one byte above ociclient's inMemThreshold (128 KiB): a client that gets it
+	// without a digest header asks for the digest with a HEAD request
+	bigManifest = func() []byte {
+		head := []byte(`{"schemaVersion":2,"annotations":{"pad":"`)
+		tail := []byte(`"}}`)
+		pad := bytes.Repeat([]byte("x"), 128*1024+1-len(head)-len(tail))
+		return append(append(head, pad...), tail...)
+	}()
+	bigDesc = ociregistry.Descriptor{MediaType: "application/vnd.oci.image.manifest.v1+json",
+		Digest: digest.FromBytes(bigManifest), Size: int64(len(bigManifest))}
 )
+
+// thenError yields the items and then the error.
+func thenError[T any](err error, items ...T) ociregistry.Seq[T] {
+	return func(yield func(T, error) bool) {
+		for _, it := range items {
+			if !yield(it, nil) {
+				return
+			}
+		}
+		yield(*new(T), err)
+	}
+}
 
 func (b *backend) funcs() *ociregistry.Funcs {
 	reader := func(point string) (ociregistry.BlobReader, error) {
@@ -116,6 +147,9 @@ func (b *backend) funcs() *ociregistry.Funcs {
 			return reader("GetManifest")
 		},
 		GetTag_: func(ctx context.Context, repo string, tag string) (ociregistry.BlobReader, error) {
+			if err := b.at("GetTag"); err == nil && b.big() {
+				return memReader{bytes.NewReader(bigManifest), bigDesc}, nil
+			}
 			return reader("GetTag")
 		},
 		ResolveBlob_: func(ctx context.Context, repo string, d ociregistry.Digest) (ociregistry.Descriptor, error) {
@@ -125,6 +159,9 @@ func (b *backend) funcs() *ociregistry.Funcs {
 			return desc("ResolveManifest")
 		},
 		ResolveTag_: func(ctx context.Context, repo string, tag string) (ociregistry.Descriptor, error) {
+			if err := b.at("ResolveTag"); err == nil && b.big() {
+				return bigDesc, nil
+			}
 			return desc("ResolveTag")
 		},
 		PushBlob_: func(ctx context.Context, repo string, d ociregistry.Descriptor, r io.Reader) (ociregistry.Descriptor, error) {
@@ -165,6 +202,9 @@ func (b *backend) funcs() *ociregistry.Funcs {
 			if err := b.at("Repositories"); err != nil {
 				return ociregistry.ErrorSeq[string](err)
 			}
+			if err := b.at("RepositoriesMid"); err != nil {
+				return thenError(err, "foo/a")
+			}
 			if startAfter != "" {
 				// a later page of the listing fails (the clients of the chain ask for 2 items a page)
 				if err := b.at("RepositoriesLater"); err != nil {
@@ -180,6 +220,9 @@ func (b *backend) funcs() *ociregistry.Funcs {
 			if err := b.at("Tags"); err != nil {
 				return ociregistry.ErrorSeq[string](err)
 			}
+			if err := b.at("TagsMid"); err != nil {
+				return thenError(err, "t1")
+			}
 			if startAfter != "" {
 				if err := b.at("TagsLater"); err != nil {
 					return ociregistry.ErrorSeq[string](err)
@@ -193,6 +236,9 @@ func (b *backend) funcs() *ociregistry.Funcs {
 		Referrers_: func(ctx context.Context, repo string, d ociregistry.Digest, artifactType string) ociregistry.Seq[ociregistry.Descriptor] {
 			if err := b.at("Referrers"); err != nil {
 				return ociregistry.ErrorSeq[ociregistry.Descriptor](err)
+			}
+			if err := b.at("ReferrersMid"); err != nil {
+				return thenError(err, blobDesc)
 			}
 			return ociregistry.SliceSeq([]ociregistry.Descriptor{blobDesc})
 		},
@@ -290,18 +336,47 @@ func (r *recorder) wrap(h http.Handler) http.Handler {
 const maxHops = 3
 
 type chain struct {
+	cfg     string
 	b       *backend
 	servers []*httptest.Server
 	recs    []*recorder
 	clients []ociregistry.Interface
 }
 
-func newChain() *chain {
-	c := &chain{b: &backend{}}
+// The chain configurations.  "" is ociserver's default.  "quirks" switches on, at every level,
+// the server options that change the request sequence between a client and a server:
+//   - OmitDigestFromTagGetResponse: a tag GET answers without a digest; the client computes it
+//     from the body, or asks with a follow-up HEAD when the manifest is above 128 KiB;
+//   - OmitLinkHeaderFromResponses: the client's pager builds the next-page request itself;
+//   - LocationsForDescriptor: a blob GET resolves the blob first and answers with a redirect
+//     to a second server of the same level (same backend, same recorder, no redirects);
+//   - DisableSinglePostUpload and a MaxListPageSize above the clients' page size.
+var configs = []string{"", "quirks"}
+
+func newChain(cfg string) *chain {
+	c := &chain{cfg: cfg, b: &backend{}}
 	var inner ociregistry.Interface = c.b.funcs()
 	for i := 0; i < maxHops; i++ {
 		rec := &recorder{}
-		srv := httptest.NewServer(rec.wrap(ociserver.New(inner, nil)))
+		var opts *ociserver.Options
+		if cfg == "quirks" {
+			o := ociserver.Options{
+				OmitDigestFromTagGetResponse: true,
+				OmitLinkHeaderFromResponses:  true,
+				DisableSinglePostUpload:      true,
+				MaxListPageSize:              1000,
+			}
+			direct := httptest.NewServer(rec.wrap(ociserver.New(inner, &o)))
+			c.servers = append(c.servers, direct)
+			o.LocationsForDescriptor = func(isManifest bool, desc ociregistry.Descriptor) ([]string, error) {
+				if isManifest {
+					return nil, nil
+				}
+				return []string{direct.URL + "/v2/" + repo + "/blobs/" + string(desc.Digest)}, nil
+			}
+			opts = &o
+		}
+		srv := httptest.NewServer(rec.wrap(ociserver.New(inner, opts)))
 		u, _ := url.Parse(srv.URL)
 		cl, err := ociclient.New(u.Host, &ociclient.Options{Insecure: true, ListPageSize: 2})
 		if err != nil {
